@@ -2,9 +2,11 @@ package checks
 
 import (
 	"fmt"
+	"math/rand"
 	"os"
 	"path/filepath"
 	"regexp"
+	"sort"
 	"strings"
 
 	"verifharness/internal/fw"
@@ -202,13 +204,197 @@ func graphJob(id string, g *incGraph) *proto.Job {
 	return &proto.Job{ID: id, Root: g.order[0], Files: files, WantFiles: true}
 }
 
+// treeProj: a project whose files live in nested directories; every INCLUDE parameter is relative to the directory of the file that
+// holds it, the same parameter text occurs in several directories and resolves to different files (or to nothing).
+type treeProj struct {
+	includes map[string][]string // file -> parameters in order
+	exists   map[string]bool     // project-relative paths that are files
+	isDir    map[string]bool     // project-relative paths that are directories
+}
+
+func genTree(r *rand.Rand) *treeProj {
+	dirs := []string{"", "a/", "a/b/", "c/", "a/b/d/", "c/a/"}
+	names := []string{"resp.jst", "x.jst", "y.jst", "z.jst"}
+	t := &treeProj{includes: map[string][]string{}, exists: map[string]bool{"root.jst": true}, isDir: map[string]bool{}}
+	for _, d := range dirs {
+		for _, n := range names {
+			if r.Intn(20) < 17 {
+				t.exists[d+n] = true
+				for k := 1; k < len(d); k++ {
+					if d[k] == '/' {
+						t.isDir[d[:k]] = true
+					}
+				}
+			}
+		}
+	}
+	idx := func(n string) int {
+		for i, x := range names {
+			if x == n {
+				return i
+			}
+		}
+		return -1 // root.jst
+	}
+	var all []string
+	for f := range t.exists {
+		all = append(all, f)
+	}
+	sort.Strings(all)
+	for _, f := range all {
+		dir, base := "", f
+		if k := strings.LastIndex(f, "/"); k >= 0 {
+			dir, base = f[:k+1], f[k+1:]
+		}
+		n := r.Intn(4)
+		if f == "root.jst" {
+			n = 1 + r.Intn(4)
+		}
+		for i := 0; i < n; i++ {
+			// a directory equal to or below the includer's
+			var below []string
+			for _, d := range dirs {
+				if strings.HasPrefix(d, dir) {
+					below = append(below, d)
+				}
+			}
+			d := below[r.Intn(len(below))]
+			nm := names[r.Intn(len(names))]
+			if d == dir && idx(nm) <= idx(base) {
+				continue // same directory: only "later" names, so that the graph has no cycle
+			}
+			p := strings.TrimPrefix(d, dir) + nm
+			if r.Intn(25) == 0 && d != dir {
+				p = strings.TrimSuffix(strings.TrimPrefix(d, dir), "/") // names a directory
+			}
+			t.includes[f] = append(t.includes[f], p)
+		}
+	}
+	return t
+}
+
+func (t *treeProj) job(id string) *proto.Job {
+	files := map[string][]byte{}
+	for f := range t.exists {
+		var sb strings.Builder
+		if f == "root.jst" {
+			sb.WriteString("JSIGHT 0.3\n")
+		}
+		for _, p := range t.includes[f] {
+			sb.WriteString("INCLUDE " + p + "\n")
+		}
+		files[f] = []byte(sb.String())
+	}
+	return &proto.Job{ID: id, Root: "root.jst", Files: files, WantFiles: true}
+}
+
+// reference: depth-first in document order, every parameter resolved against the directory of the file that holds it; stops at the
+// first parameter that names no file. Returns the set of paths that must have been consulted and the failing INCLUDE, if any.
+func (t *treeProj) reference() (consulted map[string]bool, errFile string, errLine int, budgetOK bool) {
+	consulted = map[string]bool{}
+	budget := 20000
+	var visit func(f string) bool
+	visit = func(f string) bool {
+		dir := ""
+		if k := strings.LastIndex(f, "/"); k >= 0 {
+			dir = f[:k+1]
+		}
+		for i, p := range t.includes[f] {
+			budget--
+			if budget < 0 {
+				return false
+			}
+			target := dir + p
+			consulted[target] = true
+			if !t.exists[target] {
+				errFile, errLine = f, i+1
+				if f == "root.jst" {
+					errLine = i + 2
+				}
+				return false
+			}
+			if !visit(target) {
+				return false
+			}
+		}
+		return true
+	}
+	visit("root.jst")
+	return consulted, errFile, errLine, budget >= 0
+}
+
+func c14Tree(c *fw.Ctx, j *proto.Job, res *proto.Result, t *treeProj) {
+	rp := replayOf(j, res)
+	if sig, what := crashSig(res); sig != "" {
+		c.Violate(sig, what, rp)
+		return
+	}
+	want, ef, el, ok := t.reference()
+	if !ok {
+		c.Inc("trees", "too-large-skipped", 1)
+		return
+	}
+	got := map[string]bool{}
+	for _, e := range res.Files {
+		abs := filepath.Clean(e.Path)
+		if abs != res.Dir && !strings.HasPrefix(abs, res.Dir+"/") {
+			c.Violate("escape:"+e.Op, "include tree touched "+abs, rp)
+			return
+		}
+		if e.Op == "read-root" {
+			continue
+		}
+		got[strings.TrimPrefix(abs, res.Dir+"/")] = true
+	}
+	var missing, extra []string
+	for p := range want {
+		if !got[p] {
+			missing = append(missing, p)
+		}
+	}
+	for p := range got {
+		if !want[p] {
+			extra = append(extra, p)
+		}
+	}
+	sort.Strings(missing)
+	sort.Strings(extra)
+	if len(extra) > 0 {
+		c.Violate("tree:unexpected-file-consulted", fmt.Sprintf("the builder consulted %v, which no INCLUDE resolves to when every parameter is taken relative to the directory of its file (not consulted although expected: %v)", extra, missing), rp)
+		return
+	}
+	if len(missing) > 0 {
+		c.Violate("tree:expected-file-not-consulted", fmt.Sprintf("an INCLUDE resolves to %v but the builder never looked there", missing), rp)
+		return
+	}
+	if ef == "" {
+		c.Inc("trees", "all-files-exist", 1)
+		c.Inc("trees", "files-consulted", len(got))
+		if res.Err != nil {
+			c.Violate("tree:existing-file-rejected", fmt.Sprintf("every INCLUDE names an existing file but: %s (%s:%d)", res.Err.Msg, relName(res, res.Err.File), res.Err.Line), rp)
+		}
+		return
+	}
+	c.Inc("trees", "missing-file-or-directory", 1)
+	if res.Err == nil {
+		c.Violate("tree:missing-accepted", fmt.Sprintf("the INCLUDE at %s:%d names no file but the build succeeded", ef, el), rp)
+		return
+	}
+	if relName(res, res.Err.File) != ef || res.Err.Line != el || res.Err.Column != 1 {
+		c.Violate("tree:error-location", fmt.Sprintf("the INCLUDE at %s:%d names no file; error %q at %s:%d:%d", ef, el, res.Err.Msg, relName(res, res.Err.File), res.Err.Line, res.Err.Column), rp)
+	}
+}
+
 // C14 – INCLUDE stays inside the project; include cycles are errors.
 func C14(c *fw.Ctx) {
 	c.Level = "fault_enumeration"
 	maxLen := c.Pick(5, 7)
 	c.Rule(fmt.Sprintf("parameters: ALL strings over {a . / \\ ~} of length <= %d, each bare and quoted, plus seeded longer ones (percent-encoding, "+
 		"UTF-8, trailing slashes, long names) against a sandbox with files and directories inside the project and decoys outside; "+
-		"include graphs: all digraphs on <= 3 files and sampled graphs on 4-5 files (files hold only INCLUDEs); the deciding observer is the "+
+		"include graphs: all digraphs on <= 3 files and sampled graphs on 4-5 files (files hold only INCLUDEs); include trees: seeded projects "+
+		"with files in six nested directories where the same parameter text occurs in several directories and resolves to different files, to a "+
+		"directory or to nothing - the set of consulted paths must equal the set a reference resolver (parameter relative to the directory of its "+
+		"file, depth-first, stop at the first miss) computes, and a miss must be an error at that INCLUDE; the deciding observer is the "+
 		"file-access hook (every Stat/ReadFile the builder issues); thorough tier: an strace pass cross-checks the hook against the kernel; "+
 		"distinct = distinct project bytes; non-trivial = every case", maxLen))
 	c.Assume("over-refusal (e.g. a/.hidden) is not a violation", "paths are compared after filepath.Clean")
@@ -248,6 +434,7 @@ func C14(c *fw.Ctx) {
 		cases = append(cases, c14case{string(b), r.Intn(2) == 0})
 	}
 	graphs := map[string]*incGraph{}
+	trees := map[string]*treeProj{}
 	c.RunJobs(pool, func(emit func(*proto.Job)) {
 		for i, cs := range cases {
 			emit(c14Job(fmt.Sprintf("param/%d", i), cs))
@@ -268,6 +455,15 @@ func C14(c *fw.Ctx) {
 			graphs[id] = ig
 			maxMuLock.Unlock()
 			emit(graphJob(id, ig))
+		}
+		tr := gen.Rng(c.Seed, c.ID, "trees")
+		for s := 0; s < c.Pick(1500, 60000); s++ {
+			t := genTree(tr)
+			id := fmt.Sprintf("tree/%d", s)
+			maxMuLock.Lock()
+			trees[id] = t
+			maxMuLock.Unlock()
+			emit(t.job(id))
 		}
 		gr := gen.Rng(c.Seed, c.ID, "graphs")
 		for s := 0; s < c.Pick(600, 70000); s++ {
@@ -307,6 +503,14 @@ func C14(c *fw.Ctx) {
 			if c.NeedSample() && i%977 == 5 {
 				c.Sample(map[string]interface{}{"parameter": cases[i].u, "quoted": cases[i].quoted, "file_events": res.Files, "error": res.Err})
 			}
+			return
+		}
+		if strings.HasPrefix(j.ID, "tree/") {
+			maxMuLock.Lock()
+			t := trees[j.ID]
+			delete(trees, j.ID)
+			maxMuLock.Unlock()
+			c14Tree(c, j, res, t)
 			return
 		}
 		maxMuLock.Lock()
